@@ -4,68 +4,67 @@
 #include "stubs/log_stub.c"
 
 long g_bi;
-long g_ix[8];   /* ghost byte indices whose contents are tracked across appends */
+long g_ix[3];   /* ghost byte indices whose contents are tracked across appends */
 
 #define BC_OK(b) (__CPROVER_rw_ok((b), sizeof(OrcBytecode)) && (b)->length >= 0 && (b)->length <= (b)->alloc_len && \
-   (b)->alloc_len > 0 && (b)->alloc_len <= 1000000 && \
+   (b)->alloc_len > 0 && (b)->alloc_len <= 1002048 && \
    __CPROVER_rw_ok((b)->bytecode, (b)->alloc_len))
 #define B(b, k) ((unsigned)(b)->bytecode[k])
 
 /* assumed libc-level contract: realloc of the bytecode buffer (old size = ghost g_old_alloc) to a larger size
- * preserves the old contents (ghost index) */
+ * preserves the old contents (stated at the ghost indices) */
 long g_old_alloc;
-void * orc_realloc (void *ptr, size_t size)
-__CPROVER_requires(size > 0 && size <= 1000256 && __CPROVER_rw_ok(ptr, g_old_alloc) && g_old_alloc > 0 && (size_t)g_old_alloc <= size)
-__CPROVER_assigns()
-__CPROVER_ensures(__CPROVER_is_fresh(__CPROVER_return_value, size))
 #define RKEPT(k) __CPROVER_ensures((g_ix[k] >= 0 && g_ix[k] < g_old_alloc) ==> \
       ((unsigned char *)__CPROVER_return_value)[g_ix[k]] == __CPROVER_old(((unsigned char *)ptr)[g_ix[k] >= 0 && g_ix[k] < g_old_alloc ? g_ix[k] : 0]))
-RKEPT(0) RKEPT(1) RKEPT(2) RKEPT(3) RKEPT(4) RKEPT(5) RKEPT(6) RKEPT(7);
+void * orc_realloc (void *ptr, size_t size)
+__CPROVER_requires(size > 0 && size <= 1002304 && __CPROVER_rw_ok(ptr, g_old_alloc) && g_old_alloc > 0 && (size_t)g_old_alloc <= size)
+__CPROVER_assigns()
+__CPROVER_ensures(__CPROVER_is_fresh(__CPROVER_return_value, size))
+RKEPT(0) RKEPT(1) RKEPT(2);
 
 /* ------------------------------------------------------------------ append side */
-void bytecode_append_byte (OrcBytecode *bytecode, int byte)
-__CPROVER_requires(BC_OK(bytecode))
-__CPROVER_assigns(bytecode->bytecode, bytecode->length, bytecode->alloc_len, __CPROVER_object_whole(bytecode->bytecode))
-__CPROVER_ensures(bytecode->length == __CPROVER_old(bytecode->length) + 1)
-__CPROVER_ensures(bytecode->alloc_len >= bytecode->length && bytecode->alloc_len <= __CPROVER_old(bytecode->alloc_len) + 256)
-__CPROVER_ensures(__CPROVER_is_fresh(bytecode->bytecode, bytecode->alloc_len))
-__CPROVER_ensures(B(bytecode, bytecode->length - 1) == (unsigned)(byte & 0xff))
-/* everything written before stays (through a possible reallocation): stated for 8 ghost indices */
+/* Every byte below the new length is either an old byte (unchanged) or one of the bytes the call appends.  Stated
+ * at three universally quantified ghost indices g_ix[0..2] (three are needed once: the 3-byte integer form). */
 #define KEPT(b, k) __CPROVER_ensures((g_ix[k] >= 0 && g_ix[k] < __CPROVER_old((b)->length)) ==> \
       (b)->bytecode[g_ix[k]] == __CPROVER_old((b)->bytecode[g_ix[k] >= 0 && g_ix[k] < (b)->length ? g_ix[k] : 0]))
-#define KEPT_ALL(b) KEPT(b,0) KEPT(b,1) KEPT(b,2) KEPT(b,3) KEPT(b,4) KEPT(b,5) KEPT(b,6) KEPT(b,7)
-KEPT_ALL(bytecode);
-
+#define KEPT_ALL(b) KEPT(b,0) KEPT(b,1) KEPT(b,2)
 #define APPEND_FRAME(b) \
 __CPROVER_assigns((b)->bytecode, (b)->length, (b)->alloc_len, __CPROVER_object_whole((b)->bytecode)) \
-__CPROVER_ensures((b)->alloc_len >= (b)->length && (b)->alloc_len <= 1002048) \
+__CPROVER_ensures((b)->alloc_len >= (b)->length && (b)->alloc_len <= __CPROVER_old((b)->alloc_len) + 2048) \
 __CPROVER_ensures(__CPROVER_is_fresh((b)->bytecode, (b)->alloc_len))
+/* lane k (0-based) of the bytes appended by this call, for each ghost index that falls into the appended range */
+#define NEWB(b, k, expr) __CPROVER_ensures((g_ix[k] >= __CPROVER_old((b)->length) && g_ix[k] < (b)->length) ==> \
+      B(b, g_ix[k]) == (unsigned)(expr))
+#define LANE(b, k) (g_ix[k] - __CPROVER_old((b)->length))
 
+void bytecode_append_byte (OrcBytecode *bytecode, int byte)
+__CPROVER_requires(BC_OK(bytecode))
+APPEND_FRAME(bytecode)
+__CPROVER_ensures(bytecode->length == __CPROVER_old(bytecode->length) + 1)
+__CPROVER_ensures(bytecode->alloc_len <= __CPROVER_old(bytecode->alloc_len) + 256)
+__CPROVER_ensures(B(bytecode, bytecode->length - 1) == (unsigned)(byte & 0xff))
+KEPT_ALL(bytecode);
+
+#define INT_BYTE(v, lane) ((v) < 255 ? (v) : ((lane) == 0 ? 255 : ((lane) == 1 ? ((v) & 0xff) : ((v) >> 8))))
 void bytecode_append_int (OrcBytecode *bytecode, int value)
 __CPROVER_requires(BC_OK(bytecode) && value >= 0 && value < 65535)
 APPEND_FRAME(bytecode)
 __CPROVER_ensures(bytecode->length == __CPROVER_old(bytecode->length) + (value < 255 ? 1 : 3))
-__CPROVER_ensures(value < 255 ==> B(bytecode, bytecode->length - 1) == (unsigned)value)
-__CPROVER_ensures(value >= 255 ==> (B(bytecode, bytecode->length - 3) == 255u && B(bytecode, bytecode->length - 2) == (unsigned)(value & 0xff) &&
-                                    B(bytecode, bytecode->length - 1) == (unsigned)(value >> 8)))
+NEWB(bytecode, 0, INT_BYTE(value, LANE(bytecode, 0))) NEWB(bytecode, 1, INT_BYTE(value, LANE(bytecode, 1))) NEWB(bytecode, 2, INT_BYTE(value, LANE(bytecode, 2)))
 KEPT_ALL(bytecode);
 
 void bytecode_append_uint32 (OrcBytecode *bytecode, orc_uint32 value)
 __CPROVER_requires(BC_OK(bytecode))
 APPEND_FRAME(bytecode)
 __CPROVER_ensures(bytecode->length == __CPROVER_old(bytecode->length) + 4)
-__CPROVER_ensures(B(bytecode, bytecode->length - 4) == (value & 0xff) && B(bytecode, bytecode->length - 3) == ((value >> 8) & 0xff) &&
-                  B(bytecode, bytecode->length - 2) == ((value >> 16) & 0xff) && B(bytecode, bytecode->length - 1) == ((value >> 24) & 0xff))
+NEWB(bytecode, 0, (value >> (8 * LANE(bytecode, 0))) & 0xff) NEWB(bytecode, 1, (value >> (8 * LANE(bytecode, 1))) & 0xff) NEWB(bytecode, 2, (value >> (8 * LANE(bytecode, 2))) & 0xff)
 KEPT_ALL(bytecode);
 
 void bytecode_append_uint64 (OrcBytecode *bytecode, orc_uint64 value)
 __CPROVER_requires(BC_OK(bytecode))
 APPEND_FRAME(bytecode)
 __CPROVER_ensures(bytecode->length == __CPROVER_old(bytecode->length) + 8)
-__CPROVER_ensures(B(bytecode, bytecode->length - 8) == (unsigned)(value & 0xff) && B(bytecode, bytecode->length - 7) == (unsigned)((value >> 8) & 0xff) &&
-                  B(bytecode, bytecode->length - 6) == (unsigned)((value >> 16) & 0xff) && B(bytecode, bytecode->length - 5) == (unsigned)((value >> 24) & 0xff) &&
-                  B(bytecode, bytecode->length - 4) == (unsigned)((value >> 32) & 0xff) && B(bytecode, bytecode->length - 3) == (unsigned)((value >> 40) & 0xff) &&
-                  B(bytecode, bytecode->length - 2) == (unsigned)((value >> 48) & 0xff) && B(bytecode, bytecode->length - 1) == (unsigned)((value >> 56) & 0xff))
+NEWB(bytecode, 0, (value >> (8 * LANE(bytecode, 0))) & 0xff) NEWB(bytecode, 1, (value >> (8 * LANE(bytecode, 1))) & 0xff) NEWB(bytecode, 2, (value >> (8 * LANE(bytecode, 2))) & 0xff)
 KEPT_ALL(bytecode);
 
 /* ------------------------------------------------------------------ parse side */
@@ -100,10 +99,10 @@ __CPROVER_ensures(__CPROVER_return_value == ((orc_uint64)PB(parse, 0) | ((orc_ui
 
 static OrcBytecode *mk_bc(void) {
   OrcBytecode *b = malloc(sizeof(*b)); __CPROVER_assume(b != NULL);
-  __CPROVER_assume(b->alloc_len > 0 && b->alloc_len <= 1000000 && b->length >= 0 && b->length <= b->alloc_len);
+  __CPROVER_assume(b->alloc_len > 0 && b->alloc_len <= 1000000 && b->length >= 0 && b->length <= b->alloc_len);   /* entry states: up to 10^6; internal growth up to +2048 */
   b->bytecode = malloc(b->alloc_len); __CPROVER_assume(b->bytecode != NULL);
   g_bi = nondet_long(); g_old_alloc = b->alloc_len;
-  for (int k = 0; k < 8; k++) g_ix[k] = nondet_long();
+  for (int k = 0; k < 3; k++) { g_ix[k] = nondet_long(); __CPROVER_assume(g_ix[k] >= -1 && g_ix[k] <= 2000000); }
   return b;
 }
 void h_append_byte(void) { OrcBytecode *b = mk_bc(); int v = nondet_int(); bytecode_append_byte(b, v); REACH(); }
@@ -124,9 +123,13 @@ void h_get_uint32(void) { OrcBytecodeParse *p = mk_parse(); orc_bytecode_parse_g
 void h_get_uint64(void) { OrcBytecodeParse *p = mk_parse(); orc_bytecode_parse_get_uint64(p); REACH(); }
 
 /* ------------------------------------------------------------------ inverse-pair lemmas over the two contracts */
+/* The ghost indices are universally quantified (left nondeterministic), so a fact proved "for the lane selected by
+ * g_ix[0]" holds for every lane; equality of all byte lanes is equality of the values (bit-vector extensionality). */
 void lemma_int(void) {
   OrcBytecode *b = mk_bc(); int v = nondet_int(); __CPROVER_assume(v >= 0 && v < 65535);
   int start = b->length;
+  /* the three ghosts select the (up to) three bytes of this encoding */
+  __CPROVER_assume(g_ix[0] == start && g_ix[1] == start + 1 && g_ix[2] == start + 2);
   bytecode_append_int(b, v);
   OrcBytecodeParse ps; ps.bytecode = b->bytecode; ps.parse_offset = start; g_plen = b->length;
   int r = orc_bytecode_parse_get_int(&ps);
@@ -139,7 +142,8 @@ void lemma_uint32(void) {
   bytecode_append_uint32(b, v);
   OrcBytecodeParse ps; ps.bytecode = b->bytecode; ps.parse_offset = start; g_plen = b->length;
   orc_uint32 r = orc_bytecode_parse_get_uint32(&ps);
-  __CPROVER_assert(r == v, "decode32(encode32(v)) == v");
+  long lane = g_ix[0] - start;
+  __CPROVER_assert(!(lane >= 0 && lane < 4) || ((r >> (8 * lane)) & 0xff) == ((v >> (8 * lane)) & 0xff), "byte lane g of decode32(encode32(v)) equals byte lane g of v, for every lane g");
   __CPROVER_assert(ps.parse_offset == b->length, "decoder consumes exactly the bytes the encoder produced");
   REACH();
 }
@@ -148,7 +152,17 @@ void lemma_uint64(void) {
   bytecode_append_uint64(b, v);
   OrcBytecodeParse ps; ps.bytecode = b->bytecode; ps.parse_offset = start; g_plen = b->length;
   orc_uint64 r = orc_bytecode_parse_get_uint64(&ps);
-  __CPROVER_assert(r == v, "decode64(encode64(v)) == v");
+  long lane = g_ix[0] - start;
+  __CPROVER_assert(!(lane >= 0 && lane < 8) || ((r >> (8 * lane)) & 0xff) == ((v >> (8 * lane)) & 0xff), "byte lane g of decode64(encode64(v)) equals byte lane g of v, for every lane g");
   __CPROVER_assert(ps.parse_offset == b->length, "decoder consumes exactly the bytes the encoder produced");
+  REACH();
+}
+/* extensionality step, checked rather than assumed */
+void lemma_lanes(void) {
+  orc_uint64 r = nondet_ulong(), v = nondet_ulong();
+  __CPROVER_assume(((r >> 0) & 0xff) == ((v >> 0) & 0xff) && ((r >> 8) & 0xff) == ((v >> 8) & 0xff) && ((r >> 16) & 0xff) == ((v >> 16) & 0xff) &&
+     ((r >> 24) & 0xff) == ((v >> 24) & 0xff) && ((r >> 32) & 0xff) == ((v >> 32) & 0xff) && ((r >> 40) & 0xff) == ((v >> 40) & 0xff) &&
+     ((r >> 48) & 0xff) == ((v >> 48) & 0xff) && ((r >> 56) & 0xff) == ((v >> 56) & 0xff));
+  __CPROVER_assert(r == v, "all eight byte lanes equal => values equal");
   REACH();
 }
